@@ -1206,7 +1206,9 @@ class Normalizer:
             if isinstance(n, (ast.Assign, ast.AnnAssign)) and isinstance(n.value, ast.Call) and isinstance(n.value.func, ast.Name):
                 tg = n.targets[0] if isinstance(n, ast.Assign) and len(n.targets) == 1 else getattr(n, "target", None)
                 r = self.repo.resolve_name(n.value.func.id, f.mod)
-                if isinstance(tg, ast.Name) and isinstance(r, Cls) and r.qual in new_classes and not r.base_exprs and not r.is_dataclass and "__init__" in r.methods and (r.mod is f.mod or all(self._portable(m_.node, r.mod, f.mod) for m_ in r.methods.values())):
+                if isinstance(r, Cls) and r.qual in new_classes and r.is_dataclass and "__init__" not in r.methods and not r.base_exprs:
+                    self._synth_init(r)
+                if isinstance(tg, ast.Name) and isinstance(r, Cls) and r.qual in new_classes and not r.base_exprs and "__init__" in r.methods and (not r.is_dataclass or getattr(r, "_synth_init", False)) and (r.mod is f.mod or all(self._portable(m_.node, r.mod, f.mod) for m_ in r.methods.values())):
                     cands[tg.id] = None if tg.id in cands else r
         cands = {k: v for k, v in cands.items() if v is not None}
         if not cands:
@@ -1269,6 +1271,34 @@ class Normalizer:
             self.objects[(f.qual, name)] = cls
             self.log.setdefault("inlined", []).append(f"{f.qual}: local {name} of helper class {cls.name} dissolved into its fields")
         return new
+
+    def _synth_init(self, c: Cls) -> None:
+        """The __init__ a plain @dataclass generates: one parameter per init field (defaults kept), stored to self."""
+        flds = c.init_params()
+        if any(fl.default is not None and not _is_pure(fl.default) for fl in flds):
+            return
+        args = [ast.arg(arg="self")] + [ast.arg(arg=fl.name) for fl in flds]
+        defaults = [copy.deepcopy(fl.default) for fl in flds if fl.default is not None]
+        # defaults must be trailing for a valid signature (dataclasses enforces the same)
+        seen_default = False
+        for fl in flds:
+            if fl.default is not None:
+                seen_default = True
+            elif seen_default:
+                return
+        body: t.List[ast.stmt] = [ast.Assign(targets=[ast.Attribute(value=ast.Name(id="self", ctx=ast.Load()), attr=fl.name, ctx=ast.Store())], value=ast.Name(id=fl.name, ctx=ast.Load()), lineno=c.node.lineno) for fl in flds] or [ast.Pass()]
+        node = ast.FunctionDef(name="__init__", args=ast.arguments(posonlyargs=[], args=args, kwonlyargs=[], kw_defaults=[], defaults=defaults), body=body, decorator_list=[], returns=None, lineno=c.node.lineno, col_offset=0)
+        try:
+            node.type_params = []  # type: ignore[attr-defined]
+        except Exception:
+            pass
+        ast.fix_missing_locations(node)
+        qual = f"{c.qual}.__init__"
+        fn = Func(qual, node, c.mod, c)
+        c.methods["__init__"] = fn
+        self.repo.funcs[qual] = fn
+        self.new_funcs[qual] = fn
+        c._synth_init = True  # type: ignore[attr-defined]
 
     def dissolve_objects(self, f: Func) -> t.Optional[FuncNode]:
         names = {n for (q, n) in getattr(self, "objects", {}) if q == f.qual}
@@ -2650,13 +2680,19 @@ class Normalizer:
                     counter[0] += 1
                     tmp, elt = f"items__g{counter[0]}", f"item__g{counter[0]}"
                     loop_body: t.List[ast.stmt] = [ast.Expr(value=ast.Call(func=ast.Attribute(value=ast.Name(id=tmp, ctx=ast.Load()), attr="append", ctx=ast.Load()), args=[ast.Name(id=elt, ctx=ast.Load())], keywords=[]))]
+                    # X = list(gen(..)) collects straight into X
+                    direct = isinstance(s, ast.Assign) and len(s.targets) == 1 and isinstance(s.targets[0], ast.Name) and cons is s.value and isinstance(cons.func, ast.Name) and cons.func.id == "list" and len(cons.args) == 1 and not any(isinstance(x, ast.Name) and x.id == s.targets[0].id for x in ast.walk(cons.args[0]))
+                    if direct:
+                        tmp = t.cast(ast.Name, t.cast(ast.Assign, s).targets[0]).id
+                        loop_body = [ast.Expr(value=ast.Call(func=ast.Attribute(value=ast.Name(id=tmp, ctx=ast.Load()), attr="append", ctx=ast.Load()), args=[ast.Name(id=elt, ctx=ast.Load())], keywords=[]))]
                     new = expand(ast.Name(id=elt, ctx=ast.Store()), t.cast(ast.Call, cons.args[i]), loop_body, s)
                     if new is not None:
                         hit[0] = True
                         out.append(ast.copy_location(ast.Assign(targets=[ast.Name(id=tmp, ctx=ast.Store())], value=ast.List(elts=[], ctx=ast.Load()), lineno=s.lineno), s))
                         out.extend(block(new))
-                        cons.args[i] = ast.Name(id=tmp, ctx=ast.Load())
-                        out.append(s)
+                        if not direct:
+                            cons.args[i] = ast.Name(id=tmp, ctx=ast.Load())
+                            out.append(s)
                         continue
                 out.append(s)
             return out
